@@ -39,3 +39,95 @@ Print Assumptions C03_dopri5_run_discipline.
 Example C03_inv_satisfiable (H : Type) (c : H) :
   Inv 1 1 (mkS 0 nil nil (1/10) 1 false false 0%N 0 0%N stats0 nil c).
 Proof. unfold Inv; cbn. repeat split; lra. Qed.
+
+(* ---------------- DOP853: the same discipline (proofs/Dop853Real.v) ---------------- *)
+Require IVP.model.Dop853 IVP.proofs.Dop853Real.
+
+Theorem C03_dop853_step_discipline :
+  forall (H : Type) (P : Dop853.params) f xend posneg hmax
+         (cb : H -> R -> R -> list R -> option (list R * R * R) -> H * flag R * list R) kern,
+    posneg = 1 \/ posneg = -1 -> 0 < Dop853.p_scale_min P -> 0 < Dop853.p_scale_max P ->
+    0 < Dop853.p_safety P -> hmax <> 0 ->
+    forall s, Dop853Real.Inv xend posneg s ->
+    match Dop853.step Rops P f xend posneg hmax cb kern s with
+    | inl s' => Dop853Real.Inv xend posneg s' /\ 0 <= (Dop853.s_x s' - Dop853.s_x s) * posneg /\
+                (Dop853.s_x s' <> Dop853.s_x s -> 0 < (Dop853.s_x s' - Dop853.s_x s) * posneg)
+    | inr r => 0 <= (xend - Dop853.r_x r) * posneg /\ 0 <= (Dop853.r_x r - Dop853.s_x s) * posneg /\
+               (Dop853.r_status r = Success -> Dop853.r_x r = xend) /\
+               (Dop853.r_x r = xend -> Dop853.r_status r = Success \/ Dop853.r_status r = UserInterrupt)
+    end.
+Proof. exact @Dop853Real.step_discipline. Qed.
+Print Assumptions C03_dop853_step_discipline.
+
+Theorem C03_dop853_run_discipline :
+  forall (H : Type) (P : Dop853.params) f xend posneg hmax
+         (cb : H -> R -> R -> list R -> option (list R * R * R) -> H * flag R * list R) kern,
+    posneg = 1 \/ posneg = -1 -> 0 < Dop853.p_scale_min P -> 0 < Dop853.p_scale_max P ->
+    0 < Dop853.p_safety P -> hmax <> 0 ->
+    forall fuel s r, Dop853Real.Inv xend posneg s ->
+    Dop853.loop Rops P f xend posneg hmax cb kern fuel s = Some r ->
+    0 <= (xend - Dop853.r_x r) * posneg /\ 0 <= (Dop853.r_x r - Dop853.s_x s) * posneg /\
+    (Dop853.r_status r = Success -> Dop853.r_x r = xend) /\
+    (Dop853.r_x r = xend -> Dop853.r_status r = Success \/ Dop853.r_status r = UserInterrupt).
+Proof. exact @Dop853Real.loop_discipline. Qed.
+Print Assumptions C03_dop853_run_discipline.
+
+(* ---------------- RK23 (proofs/Rk23Real.v): Success is decided by the test x == xend ---------------- *)
+Require IVP.model.Rk23 IVP.proofs.Rk23Real.
+
+Theorem C03_rk23_step_discipline :
+  forall (H : Type) (P : Rk23.params) f xend posneg hmax
+         (cb : H -> R -> R -> list R -> option (list R * R * R) -> H * flag R * list R) kern,
+    posneg = 1 \/ posneg = -1 -> 0 < Rk23.p_scale_min P -> 0 < hmax ->
+    forall s, Rk23Real.Inv xend posneg s ->
+    match Rk23.step Rops P f xend posneg hmax cb kern s with
+    | inl s' => Rk23Real.Inv xend posneg s' /\ 0 <= (Rk23.s_x s' - Rk23.s_x s) * posneg /\
+                (Rk23.s_x s' <> Rk23.s_x s -> 0 < (Rk23.s_x s' - Rk23.s_x s) * posneg)
+    | inr r => 0 <= (xend - Rk23.r_x r) * posneg /\ 0 <= (Rk23.r_x r - Rk23.s_x s) * posneg /\
+               (Rk23.r_status r = Success <-> Rk23.r_x r = xend /\ Rk23.r_status r <> UserInterrupt)
+    end.
+Proof. exact @Rk23Real.step_discipline. Qed.
+Print Assumptions C03_rk23_step_discipline.
+
+Theorem C03_rk23_run_discipline :
+  forall (H : Type) (P : Rk23.params) f xend posneg hmax
+         (cb : H -> R -> R -> list R -> option (list R * R * R) -> H * flag R * list R) kern,
+    posneg = 1 \/ posneg = -1 -> 0 < Rk23.p_scale_min P -> 0 < hmax ->
+    forall fuel s r, Rk23Real.Inv xend posneg s ->
+    Rk23.loop Rops P f xend posneg hmax cb kern fuel s = Some r ->
+    0 <= (xend - Rk23.r_x r) * posneg /\ 0 <= (Rk23.r_x r - Rk23.s_x s) * posneg /\
+    (Rk23.r_status r = Success <-> Rk23.r_x r = xend /\ Rk23.r_status r <> UserInterrupt).
+Proof. exact @Rk23Real.loop_discipline. Qed.
+Print Assumptions C03_rk23_run_discipline.
+
+(* ---------------- RK4 (proofs/Rk4Real.v; after "fix: RK4 shortens ... its last step", finding F2) ---------------- *)
+Require IVP.model.Rk4 IVP.proofs.Rk4Real.
+
+Theorem C03_rk4_step_discipline :
+  forall (H : Type) (P : Rk4.params) f xend h
+         (cb : H -> R -> R -> list R -> option (list R * R * R) -> H * flag R * list R) kern,
+    h <> 0 ->
+    forall s, Rk4Real.Inv xend h s ->
+    0 < Rk4Real.htry xend h (Rk4.s_x s) * Rsignum h /\
+    Rabs (Rk4Real.htry xend h (Rk4.s_x s)) < 101 / 100 * Rabs h /\
+    match Rk4.step Rops P f xend h cb kern s with
+    | inl s' => Rk4Real.Inv xend h s' /\ Rk4.s_x s' = Rk4.s_x s + h
+    | inr r => (Rk4.r_status r = NeedLargerNMax /\ Rk4.r_x r = Rk4.s_x s) \/
+               (Rk4.r_x r = Rk4.s_x s + Rk4Real.htry xend h (Rk4.s_x s) /\
+                0 <= (xend - Rk4.r_x r) * Rsignum h /\
+                (Rk4.r_status r = Success \/ Rk4.r_status r = UserInterrupt) /\
+                (Rk4.r_status r = Success -> Rk4.r_x r = xend))
+    end.
+Proof. exact @Rk4Real.step_discipline. Qed.
+Print Assumptions C03_rk4_step_discipline.
+
+Theorem C03_rk4_run_discipline :
+  forall (H : Type) (P : Rk4.params) f xend h
+         (cb : H -> R -> R -> list R -> option (list R * R * R) -> H * flag R * list R) kern,
+    h <> 0 ->
+    forall fuel s r, Rk4Real.Inv xend h s ->
+    Rk4.loop Rops P f xend h cb kern fuel s = Some r ->
+    0 <= (xend - Rk4.r_x r) * Rsignum h /\ 0 <= (Rk4.r_x r - Rk4.s_x s) * Rsignum h /\
+    (Rk4.r_status r = Success -> Rk4.r_x r = xend).
+Proof. exact @Rk4Real.loop_discipline. Qed.
+Print Assumptions C03_rk4_run_discipline.
